@@ -483,6 +483,9 @@ class Authorization(Endpoint):
                     if _req:
                         # One time usage
                         del context.par_db[_request_uri]
+                        # Only the client that pushed the request can use it
+                        if _req.get("client_id") != client_id:
+                            raise ValueError("Got a request_uri that belongs to another client")
                         return _req
                     else:
                         raise ValueError("Got a request_uri I can not resolve")
